@@ -98,6 +98,11 @@ def run(tier, seed):
                     ws.cell(row=r, column=c, value=f)
                 titles = titles + ['Probe sheet']
                 plan.append(('Probe sheet', {}, {k: v[0] for k, v in probes.items()}, set()))
+            if b % 5 == 2:
+                # a tab that is not a worksheet: it is not a sheet of the translated workbook, and the worksheets keep their order and titles
+                from openpyxl.chart import BarChart
+                wb.create_chartsheet('Chart tab', 0).add_chart(BarChart())
+                chk.count('chartsheet-in-front')
             path = os.path.join(d, 'wb%d.xlsx' % b)
             wb.save(path)
             if b % 3 == 1:
